@@ -4,6 +4,7 @@ import (
 	"fmt"
 	"strings"
 	"sync"
+	"time"
 
 	"verif/internal/ev"
 	. "verif/internal/pbt"
@@ -177,6 +178,8 @@ func checkKnownFindings(rec *ev.Recorder) map[string]bool {
 
 var knownWG *sync.WaitGroup
 
+var tplStart = time.Now()
+
 // superviseTemplates runs the limit and recursion templates in children.
 func superviseTemplates(rec *ev.Recorder, known map[string]bool) {
 	var cases []Case
@@ -255,7 +258,7 @@ func superviseTemplates(rec *ev.Recorder, known map[string]bool) {
 					rec.NonTrivial(c.Key())
 				}
 				rec.Sample(map[string]any{"kind": c.Kind, "template": c.Tmpl, "n": c.N, "mem": c.Mem, "outcome": cls, "msg": clip(o.Msg, 120), "rets": clip(o.Rets, 80)})
-				fmt.Printf("%-6s %-28s n=%-8d mem=%-9d %-13s %6.2fs %s\n", c.Kind, c.Tmpl, c.N, c.Mem, cls, o.Secs, clip(strings.ReplaceAll(o.Msg+o.Rets, "\n", " "), 100))
+				fmt.Printf("[%6.1fs] %-6s %-28s n=%-8d mem=%-9d %-13s %6.2fs %s\n", time.Since(tplStart).Seconds(), c.Kind, c.Tmpl, c.N, c.Mem, cls, o.Secs, clip(strings.ReplaceAll(o.Msg+o.Rets, "\n", " "), 100))
 				if r.msg != "" {
 					rec.Violation(c.Kind, c, fmt.Sprintf("%s template %s n=%d mem=%d: %s", c.Kind, c.Tmpl, c.N, c.Mem, r.msg))
 				}
